@@ -96,6 +96,30 @@ func (w *SimWriter) Write(b []byte) (int, error) {
 	return n, err
 }
 
+// ReadFrom is what net/http's response offers to io.Copy. It is recorded as the
+// Write calls a plain copy would have made, so that a wrapper which (correctly)
+// delegates to it is not distinguishable from one that does not.
+func (w *SimWriter) ReadFrom(r io.Reader) (int64, error) {
+	var total int64
+	buf := make([]byte, 32*1024)
+	for {
+		n, err := r.Read(buf)
+		if n > 0 {
+			m, werr := w.Write(buf[:n])
+			total += int64(m)
+			if werr != nil {
+				return total, werr
+			}
+		}
+		if err == io.EOF {
+			return total, nil
+		}
+		if err != nil {
+			return total, err
+		}
+	}
+}
+
 func (w *SimWriter) Flush() {
 	taskYield(siteWCall)
 	c := WCall{Op: "Flush"}
